@@ -234,6 +234,13 @@ func H_selftest_deepequal() {
 	x, y := 1, 1
 	vxrt.Assert(reflect.DeepEqual(&x, &y) && reflect.DeepEqual(struct{ A []int }{[]int{1}}, struct{ A []int }{[]int{1}}), "selftest:deepequal-pointers-structs")
 	vxrt.Assert(reflect.DeepEqual(c == "q", c[0] == 'q'), "selftest:deepequal-symbolic")
+	// decoding into any and encoding such trees again (host library behind both)
+	var dec any
+	err := json.Unmarshal([]byte(`{"b":[1,"x",null,true,{"z":1.5}],"a":9007199254740993}`), &dec)
+	vxrt.Assert(err == nil && dec.(map[string]any)["a"].(float64) == 9007199254740992 && len(dec.(map[string]any)["b"].([]any)) == 5, "selftest:json-unmarshal-any")
+	enc, err := json.Marshal(dec)
+	vxrt.Assert(err == nil && string(enc) == `{"a":9007199254740992,"b":[1,"x",null,true,{"z":1.5}]}`, "selftest:json-marshal-tree")
+	vxrt.Assert(json.Unmarshal([]byte(`{"a":`), &dec) != nil, "selftest:json-unmarshal-error")
 	// slices.Insert relies on comparing addresses of slice cells (overlap test)
 	names := []string{"b", "d"}
 	names = slices.Insert(names, 1, "c")
